@@ -122,3 +122,10 @@ Theorem C19_compact_keeps_data : forall L c tr ss f,
   abs c (tr ++ eops L ss (SReq (QCompact f))) (fst (service_step L ss (QCompact f))) = abs c tr ss.
 Proof. exact ServiceProofs.compact_keeps_data. Qed.
 Print Assumptions C19_compact_keeps_data.
+
+(* ... and sends back every key and value they admit (send limit of the same server options) *)
+Theorem C19_admitted_values_can_be_sent : forall k v,
+  valid_key code_limits k = true -> valid_val code_limits v = true ->
+  ServiceProofs.sendable (ServiceProofs.resp_wire_bound k v) = true.
+Proof. exact ServiceProofs.admitted_values_can_be_sent. Qed.
+Print Assumptions C19_admitted_values_can_be_sent.
